@@ -503,28 +503,28 @@ pub fn sexp(p: &Prog) -> String {
     let fns: Vec<String> = p
         .fns
         .iter()
-        .map(|f| format!("(fn ({}) {})", f.params.iter().map(|x| x.to_string()).collect::<Vec<_>>().join(" "), sblk(&f.body)))
+        .map(|f| format!("(fn ({}) {})", f.params.iter().map(|x| x.to_string()).collect::<Vec<_>>().join(" "), sblk(p, &f.body)))
         .collect();
     format!("(prog {})", fns.join(" "))
 }
 
-fn sblk(b: &Blk) -> String {
+fn sblk(p: &Prog, b: &Blk) -> String {
     let mut items: Vec<String> = b
         .stmts
         .iter()
         .map(|s| match s {
-            S::Let(x, e) => format!("(let {x} {})", sx(e)),
-            S::Do(e) => format!("(do {})", sx(e)),
+            S::Let(x, e) => format!("(let {x} {})", sx(p, e)),
+            S::Do(e) => format!("(do {})", sx(p, e)),
         })
         .collect();
     if let Some(e) = &b.last {
-        items.push(format!("(last {})", sx(e)));
+        items.push(format!("(last {})", sx(p, e)));
     }
     format!("(blk {})", items.join(" "))
 }
 
-fn sxs(es: &[E]) -> String {
-    es.iter().map(sx).collect::<Vec<_>>().join(" ")
+fn sxs(p: &Prog, es: &[E]) -> String {
+    es.iter().map(|e| sx(p, e)).collect::<Vec<_>>().join(" ")
 }
 
 fn spat(p: &Pat) -> String {
@@ -534,59 +534,63 @@ fn spat(p: &Pat) -> String {
     }
 }
 
-pub fn sx(e: &E) -> String {
+pub fn sx(p: &Prog, e: &E) -> String {
     match e {
         E::Int(n) => format!("(int {n})"),
         E::Bool(b) => format!("(bool {})", *b as u8),
         E::Unit => "(unit)".to_string(),
         E::Var(x) => format!("(var {x})"),
-        E::Host(f, a) => format!("(host {f} {})", sxs(a)),
-        E::Call(f, a) => format!("(call {f} {})", sxs(a)),
-        E::Bin(op, l, r) => format!("(bin {} {} {})", op.name(), sx(l), sx(r)),
-        E::And(l, r) => format!("(and {} {})", sx(l), sx(r)),
-        E::Or(l, r) => format!("(or {} {})", sx(l), sx(r)),
-        E::Not(x) => format!("(not {})", sx(x)),
-        E::Neg(x) => format!("(neg {})", sx(x)),
-        E::Ite(c, t, el) => format!("(ite {} {} {})", sx(c), sblk(t), sblk(el)),
-        E::If1(c, t) => format!("(if1 {} {})", sx(c), sblk(t)),
+        E::Host(f, a) => format!("(host {f} {})", sxs(p, a)),
+        E::Call(f, a) => format!("(call {f} {})", sxs(p, a)),
+        // `==` / `!=` on the host type is a construct of its own in the specification (an implicit host call)
+        E::Bin(op @ (Op::Eq | Op::Ne), l, r) if type_of(p, l) == Some(T::K) || type_of(p, r) == Some(T::K) => {
+            format!("(eqh {} {} {})", (*op == Op::Ne) as u8, sx(p, l), sx(p, r))
+        }
+        E::Bin(op, l, r) => format!("(bin {} {} {})", op.name(), sx(p, l), sx(p, r)),
+        E::And(l, r) => format!("(and {} {})", sx(p, l), sx(p, r)),
+        E::Or(l, r) => format!("(or {} {})", sx(p, l), sx(p, r)),
+        E::Not(x) => format!("(not {})", sx(p, x)),
+        E::Neg(x) => format!("(neg {})", sx(p, x)),
+        E::Ite(c, t, el) => format!("(ite {} {} {})", sx(p, c), sblk(p, t), sblk(p, el)),
+        E::If1(c, t) => format!("(if1 {} {})", sx(p, c), sblk(p, t)),
         E::Match(s, is_opt, arms) => {
             let a: Vec<String> = arms
                 .iter()
                 .map(|a| match &a.guard {
-                    None => format!("(arm {} {})", spat(&a.pat), sblk(&a.body)),
-                    Some(g) => format!("(armg {} {} {})", spat(&a.pat), sx(g), sblk(&a.body)),
+                    None => format!("(arm {} {})", spat(&a.pat), sblk(p, &a.body)),
+                    Some(g) => format!("(armg {} {} {})", spat(&a.pat), sx(p, g), sblk(p, &a.body)),
                 })
                 .collect();
-            format!("(match {} {} {})", if *is_opt { "opt" } else { "enm" }, sx(s), a.join(" "))
+            format!("(match {} {} {})", if *is_opt { "opt" } else { "enm" }, sx(p, s), a.join(" "))
         }
-        E::While(c, b) => format!("(while {} {})", sx(c), sblk(b)),
-        E::For(x, l, b) => format!("(for {x} {} {})", sx(l), sblk(b)),
-        E::Block(b) => format!("(block {})", sblk(b)),
-        E::Assign(x, v) => format!("(set {x} {})", sx(v)),
-        E::CAssign(op, x, v) => format!("(cset {} {x} {})", op.name(), sx(v)),
-        E::AssignF(x, i, v) => format!("(setf {x} {i} {})", sx(v)),
-        E::CAssignF(op, x, i, v) => format!("(csetf {} {x} {i} {})", op.name(), sx(v)),
-        E::Ret(v) => format!("(ret {})", sx(v)),
-        E::Accept(v) => format!("(accept {})", sx(v)),
-        E::Reject(v) => format!("(reject {})", sx(v)),
-        E::Try(v) => format!("(try {})", sx(v)),
-        E::Some(v) => format!("(some {})", sx(v)),
+        E::While(c, b) => format!("(while {} {})", sx(p, c), sblk(p, b)),
+        E::For(x, l, b) => format!("(for {x} {} {})", sx(p, l), sblk(p, b)),
+        E::Block(b) => format!("(block {})", sblk(p, b)),
+        E::Assign(x, v) => format!("(set {x} {})", sx(p, v)),
+        E::CAssign(op, x, v) => format!("(cset {} {x} {})", op.name(), sx(p, v)),
+        E::AssignF(x, i, v) => format!("(setf {x} {i} {})", sx(p, v)),
+        E::CAssignF(op, x, i, v) => format!("(csetf {} {x} {i} {})", op.name(), sx(p, v)),
+        E::Ret(v) => format!("(ret {})", sx(p, v)),
+        E::Accept(v) => format!("(accept {})", sx(p, v)),
+        E::Reject(v) => format!("(reject {})", sx(p, v)),
+        E::Try(v) => format!("(try {})", sx(p, v)),
+        E::Some(v) => format!("(some {})", sx(p, v)),
         E::None_ => "(none)".to_string(),
-        E::Ctor(v, a) => format!("(ctor {v} {})", sxs(a)),
+        E::Ctor(v, a) => format!("(ctor {v} {})", sxs(p, a)),
         E::Record(_, fs) => format!(
             "(record ({}) {})",
             fs.iter().map(|(i, _)| i.to_string()).collect::<Vec<_>>().join(" "),
-            fs.iter().map(|(_, e)| sx(e)).collect::<Vec<_>>().join(" ")
+            fs.iter().map(|(_, e)| sx(p, e)).collect::<Vec<_>>().join(" ")
         ),
-        E::Field(r, i) => format!("(field {} {i})", sx(r)),
-        E::List(es) => format!("(list {})", sxs(es)),
-        E::Concat(l, r) => format!("(concat {} {})", sx(l), sx(r)),
+        E::Field(r, i) => format!("(field {} {i})", sx(p, r)),
+        E::List(es) => format!("(list {})", sxs(p, es)),
+        E::Concat(l, r) => format!("(concat {} {})", sx(p, l), sx(p, r)),
         E::FStr(parts) => {
             let ps: Vec<String> = parts
                 .iter()
-                .map(|p| match p {
+                .map(|pt| match pt {
                     Part::Str(s) => format!("(s x{})", hex(s)),
-                    Part::Expr(e) => format!("(e {})", sx(e)),
+                    Part::Expr(e) => format!("(e {})", sx(p, e)),
                 })
                 .collect();
             format!("(fstr {})", ps.join(" "))
